@@ -53,6 +53,18 @@ func aggressiveNorm(values []string) string {
 		m = strings.TrimSuffix(m, ";q=1.0")
 		m = strings.TrimSuffix(m, ";q=1.00")
 		m = strings.TrimSuffix(m, ";q=1.000")
+		// malformed q parameters (q=abc, q=2, q=, q) carry no agreed meaning: dropped
+		if i := strings.Index(m, ";q"); i >= 0 {
+			rest := m[i+2:]
+			end := strings.IndexByte(rest, ';')
+			if end < 0 {
+				end = len(rest)
+			}
+			qv := strings.TrimPrefix(rest[:end], "=")
+			if !validQValue(qv) || !strings.HasPrefix(rest, "=") {
+				m = m[:i] + rest[end:]
+			}
+		}
 		for _, z := range []string{";q=0", ";q=0.0", ";q=0.00", ";q=0.000"} {
 			if strings.HasSuffix(m, z) {
 				m = "" // "not acceptable": the cache drops such members; debatable, so no verdict
@@ -63,6 +75,11 @@ func aggressiveNorm(values []string) string {
 		}
 		if m == "x-compress" {
 			m = "compress"
+		}
+		// members without any name character (";", "=", "q=" ...) are
+		// malformed: whether they mean anything is debatable - no verdict
+		if !strings.ContainsAny(strings.SplitN(m, ";", 2)[0], "abcdefghijklmnopqrstuvwxyz0123456789*") {
+			m = ""
 		}
 		if m != "" {
 			members = append(members, m)
@@ -103,4 +120,26 @@ func VariantMismatch(vary []string, a, b http.Header) (fields []string, star boo
 		}
 	}
 	return fields, star
+}
+
+
+func validQValue(s string) bool {
+	if s == "" {
+		return false
+	}
+	if s[0] != '0' && s[0] != '1' {
+		return false
+	}
+	if len(s) == 1 {
+		return true
+	}
+	if s[1] != '.' || len(s) > 5 {
+		return false
+	}
+	for _, c := range s[2:] {
+		if c < '0' || c > '9' || (s[0] == '1' && c != '0') {
+			return false
+		}
+	}
+	return true
 }
